@@ -1,6 +1,7 @@
 package scen
 
 import (
+	burnertypes "github.com/elys-network/elys/x/burner/types"
 	mctypes "github.com/elys-network/elys/x/masterchef/types"
 
 	"verifharness/chain"
@@ -13,7 +14,7 @@ import (
 var MixWide = gen.Mix{"swapIn1": 14, "swapOut1": 8, "swap2hop": 5, "swapByDenom": 4, "joinSingle": 5, "joinAll": 5, "exit": 8, "levOpen": 8, "levClose": 7, "levStop": 2, "levClaim": 1, "levBot": 4,
 	"perpOpen": 10, "perpClose": 8, "perpSL": 2, "perpTP": 2, "perpBot": 5, "bond": 4, "unbond": 4, "donate": 2, "mcClaim": 4,
 	"commitClaimed": 3, "uncommit": 2, "vest": 3, "claimVesting": 3, "cancelVest": 2, "vestNow": 1, "stake": 2, "unstake": 2, "delegate": 2, "undelegate": 2, "estWithdraw": 2,
-	"ordSpot": 7, "ordPerp": 5, "ordUpdate": 2, "ordCancel": 2, "ordExec": 9}
+	"ordSpot": 7, "ordPerp": 5, "ordUpdate": 2, "ordCancel": 2, "ordExec": 9, "burnSend": 3, "hostileRegistry": 2}
 
 func wideWorld(c *run.Ctx, probes bool) (*chain.World, *Variant) {
 	v := NewVariant(c)
@@ -22,11 +23,19 @@ func wideWorld(c *run.Ctx, probes bool) (*chain.World, *Variant) {
 	return w, v
 }
 
+// burnerOn: governance gives the burner module a real epoch (its default identifier names none).
+func burnerOn(c *run.Ctx, w *chain.World) {
+	if w.GovExec("burner epoch", &burnertypes.MsgUpdateParams{Authority: w.Gov, Params: burnertypes.Params{EpochIdentifier: "five_minutes"}}) {
+		c.Ev("burner_epoch_set")
+	}
+}
+
 func init() {
 	run.Register("replicas", func(c *run.Ctx) {
 		w, v := wideWorld(c, true)
 		v.Prologue(w)
 		w.GovExec("eden on", &mctypes.MsgTogglePoolEdenRewards{Authority: w.Gov, PoolId: 1, Enable: true}, &mctypes.MsgTogglePoolEdenRewards{Authority: w.Gov, PoolId: 2, Enable: true})
+		burnerOn(c, w)
 		g := v.Gen(w, c, MixWide)
 		g.FeeProb = 0.4
 		g.MaxTx = 8
